@@ -22,7 +22,7 @@ import (
 	"github.com/q191201771/lal/pkg/rtmp"
 )
 
-// c04Conn hands the input out one byte per Read and reports io.EOF afterwards.
+// c04Conn hands the input out one byte per Read (the handshake in bulk) and reports io.EOF afterwards.
 // Before every Read it drains the session's write queue (ServerSession.Flush),
 // so that the replies queued for the asynchronous writer (which exists once the
 // session became a publisher or subscriber) are on record before more input is
@@ -35,6 +35,7 @@ type c04Conn struct {
 	closed   bool
 	beforeRd func()
 	hitEOF   bool
+	pos      int
 }
 
 func (c *c04Conn) Read(b []byte) (int, error) {
@@ -51,9 +52,21 @@ func (c *c04Conn) Read(b []byte) (int, error) {
 		c.hitEOF = true
 		return 0, io.EOF
 	}
-	b[0] = c.in[0]
-	c.in = c.in[1:]
-	return 1, nil
+	// the handshake (3073 bytes, nothing is queued yet) may arrive in bulk; afterwards one byte per Read
+	n := 1
+	if c.pos < 3073 {
+		n = 3073 - c.pos
+		if n > len(b) {
+			n = len(b)
+		}
+		if n > len(c.in) {
+			n = len(c.in)
+		}
+	}
+	copy(b, c.in[:n])
+	c.in = c.in[n:]
+	c.pos += n
+	return n, nil
 }
 
 func (c *c04Conn) Write(b []byte) (int, error) {
@@ -297,7 +310,7 @@ func c04Session(a []string) (out string) {
 				res = "!" + panicSite(r)
 			}
 		}()
-		rtmp.NewServer("", obs2).VerifHandleTcpConnect(conn2)
+		rtmp.NewServer("", obs2).VerifC04HandleTcpConnect(conn2)
 		return ""
 	}()
 	return fmt.Sprintf("%s hs=%s ev=%s w=%s sh=%s%s", outcome, hs, c04Join(obs.ev), tokBytes(w), c04Kinds(obs2.ev), shell)
